@@ -42,7 +42,10 @@ def gen_case(rng, idx, tier):
         from rv import evpersp
         return evpersp.gen(rng, tier)
     cones = ['L', 'LQ', 'LQX', 'LQX', 'X', 'Q'][int(rng.integers(6))]
-    return D.gen(rng, tier, cones=cones)
+    spec = D.gen(rng, tier, cones=cones)
+    if rng.random() < 0.15 and spec['front'] == 'ro':
+        spec['prelude'] = int(rng.integers(1 << 30))     # see detmodel._build
+    return spec
 
 
 def pick_solver(spec, rng):
